@@ -153,7 +153,7 @@ fn hunt_prop(prop: &str) -> ! {
             let (alphabet, probes, variants): (Vec<char>, Vec<char>, Vec<Vec<&str>>) = if prop == "C05" {
                 (vec!['a', 'b'], vec!['a', 'b'], vec![vec!["--repetitions"], vec!["--repetitions", "--min-rep-2"], vec!["--repetitions", "--min-len-2"]])
             } else {
-                (vec!['a', ' ', '#', '\u{2003}', '\u{e9}'], vec!['a', ' ', '#', '\u{2003}', '\u{2004}', '\t', '\u{e9}', 'b'], vec![vec!["--verbose"], vec!["--capture-groups"], vec!["--escape"], vec!["--verbose", "--capture-groups", "--escape"]])
+                (vec!['a', ' ', '#', '\u{2003}', '\u{e9}', '$', '(', '|'], vec!['a', ' ', '#', '\u{2003}', '\u{2004}', '\t', '\u{e9}', 'b', '$', '(', '|'], vec![vec!["--verbose"], vec!["--capture-groups"], vec!["--escape"], vec!["--verbose", "--capture-groups", "--escape"]])
             };
             let ws = words(&alphabet, if prop == "C05" { 5 } else { 2 });
             let universe = { let mut u = words(&probes, if prop == "C05" { 6 } else { 3 }); u.push(String::new()); u };
@@ -224,6 +224,37 @@ fn hunt_prop(prop: &str) -> ! {
             } }
         }
         // case-insensitive matching accepts every test case whatever its casing
+        // shorthand-class options generalise exactly as documented (precedence digit, word, space, non-digit, non-word, non-space)
+        "C03" => {
+            let ws = words(&['a', '1', ' ', '-'], 3);
+            let probes = words(&['b', 'a', '2', '1', '\t', ' ', '+', '-', '_'], 2);
+            let is_d = |c: char| c.is_ascii_digit(); let is_w = |c: char| c.is_ascii_alphanumeric() || c == '_'; let is_s = |c: char| c == ' ' || c == '\t';
+            let opts = ["--digits", "--non-digits", "--spaces", "--non-spaces", "--words", "--non-words"];
+            for mask in 0u32..64 {
+                let v: Vec<&str> = opts.iter().enumerate().filter(|(i, _)| mask & (1 << i) != 0).map(|(_, o)| *o).collect();
+                let (d, nd, sp, nsp, w, nw) = (mask & 1 != 0, mask & 2 != 0, mask & 4 != 0, mask & 8 != 0, mask & 16 != 0, mask & 32 != 0);
+                // the documented class of one code point of a test case, as a predicate on a code point of a candidate string
+                let same_class = |t: char, c: char| -> bool {
+                    if d && is_d(t) { is_d(c) } else if w && is_w(t) { is_w(c) } else if sp && is_s(t) { is_s(c) }
+                    else if nd && !is_d(t) { !is_d(c) } else if nw && !is_w(t) { !is_w(c) } else if nsp && !is_s(t) { !is_s(c) } else { t == c }
+                };
+                for set in sets(&ws, 2) {
+                    if set.len() == 2 && (mask % 7 != 0) { continue }          // pairs only for every seventh flag subset: keeps the search under a minute
+                    tried += 1;
+                    let mut b = RegExpBuilder::from(&set);
+                    if d { b.with_conversion_of_digits(); } if nd { b.with_conversion_of_non_digits(); } if sp { b.with_conversion_of_whitespace(); }
+                    if nsp { b.with_conversion_of_non_whitespace(); } if w { b.with_conversion_of_words(); } if nw { b.with_conversion_of_non_words(); }
+                    let out = b.build();
+                    let Ok(re) = Regex::new(&out) else { fail(&v, &set, "the pattern does not compile", &out) };
+                    for tc in &set { if !full(&re, tc) { fail(&v, &set, &format!("test case {:?} is not matched", tc), &out) } }
+                    for p in probes.iter().chain(ws.iter()) {
+                        let pc: Vec<char> = p.chars().collect();
+                        let want = set.iter().any(|t| { let tcs: Vec<char> = t.chars().collect(); tcs.len() == pc.len() && tcs.iter().zip(pc.iter()).all(|(a, b)| same_class(*a, *b)) });
+                        if full(&re, p) != want { fail(&v, &set, &format!("{:?} is {} but the documented generalisation {} it", p, if want { "rejected" } else { "accepted" }, if want { "contains" } else { "does not contain" }), &out) }
+                    }
+                }
+            }
+        }
         "C04" => {
             let ws = words(&['a', 'B', '\u{130}', '\u{3a3}'], 3);
             for set in sets(&ws, 2) { for v in [vec!["--ignore-case"], vec!["--ignore-case", "--verbose"]] {
